@@ -3,15 +3,16 @@
 # Confirms a seeded change produced in /tmp/wt-<Cxx> (mut<X>.diff + tests/demo_<X>.rs), stores it under
 # /verif/seeded/<Cxx>-<X>/ and runs the property's check against the mutated worktree (VERIF_REPO).
 P=$1; X=$2; TIER=${3:-quick}
-WT=/tmp/wt-$P
-OUT=/verif/seeded/$P-$X
+R=${MUT_ROUND:-1}
+if [ "$R" = "1" ]; then WT=/tmp/wt-$P; ID=$P-$X; else WT=/tmp/w$R-$P; ID=$P-$X$R; fi
+OUT=/verif/seeded/$ID
 export CARGO_NET_OFFLINE=true CARGO_TARGET_DIR=$WT/target
 cd $WT || exit 9
 git checkout -q -- src
 base=$(cargo test --offline --no-fail-fast --test demo_$X 2>&1 | grep -E "^test result" | head -1)
-git apply mut$X.diff || { echo "$P-$X: patch does not apply"; exit 9; }
+git apply mut$X.diff || { echo "$ID: patch does not apply"; exit 9; }
 full=$(cargo test --offline --no-fail-fast 2>&1 | grep -E "^test result|Running|Doc-tests" )
-echo "$full" > /tmp/mutfull-$P-$X.txt
+echo "$full" > /tmp/mutfull-$ID.txt
 demo_fail=$(cargo test --offline --no-fail-fast --test demo_$X 2>&1 | grep -E "^test result" | head -1)
 # every pre-existing target must pass: count failed in all but the demo targets
 other_failed=$(cargo test --offline --no-fail-fast 2>&1 | awk '/Running/ {cur=$0} /Doc-tests/ {cur=$0} /^test result/ {if (cur !~ /demo_/) print $0}' | grep -c "FAILED")
@@ -19,8 +20,8 @@ mkdir -p $OUT
 cp mut$X.diff $OUT/patch.diff
 cp tests/demo_$X.rs $OUT/demo.rs
 s=$(date +%s)
-(cd ${VERIF_DIR:-/verif} && VERIF_REPO=$WT VERIF_NO_EVIDENCE=1 ./check $P $TIER > /tmp/mutcheck-$P-$X.txt 2>&1); rc=$?
+(cd ${VERIF_DIR:-/verif} && VERIF_REPO=$WT VERIF_NO_EVIDENCE=1 ./check $P $TIER > /tmp/mutcheck-$ID.txt 2>&1); rc=$?
 e=$(date +%s)
 git checkout -q -- src
-viol=$(grep -c "^VIOLATION property=$P" /tmp/mutcheck-$P-$X.txt)
-echo "$P-$X tier=$TIER baseline_demo=[$base] mutant_demo=[$demo_fail] preexisting_failed_targets=$other_failed check_rc=$rc violation_lines=$viol secs=$((e-s))" | tee -a /var/tmp/mut-results.txt | tee -a /verif/seeded/results.txt
+viol=$(grep -c "^VIOLATION property=$P" /tmp/mutcheck-$ID.txt)
+echo "$ID tier=$TIER baseline_demo=[$base] mutant_demo=[$demo_fail] preexisting_failed_targets=$other_failed check_rc=$rc violation_lines=$viol secs=$((e-s))" | tee -a /var/tmp/mut-results.txt | tee -a /verif/seeded/results.txt
